@@ -1,15 +1,18 @@
 #!/bin/bash
-# scripts/mutant.sh <patch.diff> <property id> [tier]   — apply a property-breaking patch to /repo,
-# run the check (expect VIOLATION), always revert. Prints CAUGHT / MISSED.
+# scripts/mutant.sh <patch.diff> <property id> [tier]
+# Applies a property-breaking patch to a scratch worktree of /repo (never to /repo itself), runs the
+# check against it (expects VIOLATION), removes the worktree. MUTANT_TESTS=1 also runs the pinned
+# test-suite on the patched tree. Prints CAUGHT / MISSED.
 set -u
 PATCH=$(readlink -f "$1"); ID=$2; TIER=${3:-quick}
-cd /repo || exit 2
-if [ -n "$(git status --porcelain)" ]; then echo "repo not clean"; exit 2; fi
-git apply "$PATCH" || { echo "patch does not apply"; exit 2; }
-trap 'git -C /repo checkout -- . ; git -C /repo clean -fdq' EXIT
+WT=$(mktemp -d /tmp/mut-XXXXXX)
+rmdir "$WT"
+git -C /repo worktree add -q --detach "$WT" HEAD || exit 2
+trap 'git -C /repo worktree remove --force "$WT" 2>/dev/null; rm -rf "$WT" /verif/.work/*$(basename $WT | tr -c "A-Za-z0-9\n" "_")*' EXIT
+git -C "$WT" apply "$PATCH" || { echo "patch does not apply: $PATCH"; exit 2; }
 if [ "${MUTANT_TESTS:-0}" = 1 ]; then
-  (cd /repo && GOFLAGS=-mod=mod GOPROXY=off GOSUMDB=off go test -vet=off -count=1 ./... 2>&1 | grep -v "^ok\|no test files" | head -20)
+  (cd "$WT" && GOFLAGS=-mod=mod GOPROXY=off GOSUMDB=off go test -vet=off -count=1 ./... 2>&1 | grep -v "^ok\|no test files" | head -20)
 fi
-out=$(cd /verif && ./check "$ID" "$TIER" 2>&1); rc=$?
-echo "$out" | grep -E "VIOLATION|KNOWN-FINDING|INFRA|OK property|FAIL" | head -8
+out=$(cd /verif && VERIF_REPO="$WT" ./check "$ID" "$TIER" 2>&1); rc=$?
+echo "$out" | grep -E "VIOLATION|KNOWN-FINDING|INFRA|OK property|FAIL" | head -6
 if [ $rc -eq 1 ] && echo "$out" | grep -q "^VIOLATION property=$ID"; then echo "CAUGHT $(basename $PATCH) by $ID"; else echo "MISSED $(basename $PATCH) by $ID (rc=$rc)"; fi
